@@ -8,6 +8,7 @@ package udp
 
 import (
 	"bytes"
+	"encoding/binary"
 	"fmt"
 	"net"
 	"time"
@@ -146,5 +147,11 @@ func (u *UDPv4) createRawUDPBuffer(sourceIP net.IP, sourcePort uint16, destIP ne
 	}
 
 	packet := u.buffer.Bytes()
+	if udpLayer.Checksum == 0 {
+		// RFC 768 / RFC 8200 section 8.1: a UDP checksum that computes to zero is sent as
+		// all ones; a zero field means "no checksum" and IPv6 receivers discard the packet
+		udpLayer.Checksum = 0xffff
+		binary.BigEndian.PutUint16(packet[len(packet)-len(payload)-2:], udpLayer.Checksum)
+	}
 	return id, packet, udpLayer.Checksum, nil
 }
